@@ -1007,9 +1007,45 @@ def brief(r):
     return s if len(s) < 160 else s[:160] + '...'
 
 
+def literal_case_sequences():
+    """Consecutive parses in ONE process of texts that differ only in the letter case of string literals, subscript keys,
+    table names or the JOURNAL account string: every parse must return the literal exactly as written (parsing is a function
+    of the text alone, no state carried from earlier parses). Oracle: the literal found in the returned AST."""
+    import beanquery
+    from beanquery import parser as bp
+    bad = []
+    n = 0
+    pairs = [
+        ("SELECT a WHERE payee = '{}'", ['Cafe', 'CAFE', 'cafe', 'cAFE'], lambda t: t.where_clause.right.value),
+        ("SELECT meta['{}']", ['Key', 'KEY', 'key'], lambda t: t.targets[0].expression.key),
+        ("SELECT a FROM #{}", ['Accounts', 'accounts', 'ACCOUNTS'], lambda t: t.from_clause.name),
+        ("JOURNAL '{}'", ['Assets:Cash', 'assets:cash', 'ASSETS:CASH'], lambda t: t.account),
+        ("SELECT a WHERE b IN ('{}', 'x')", ['Ab', 'aB', 'AB'], lambda t: t.where_clause.right.value[0]),
+        ('SELECT a   WHERE payee ~ "{}"  ', ['Mixed Case', 'mixed case', 'MIXED CASE'], lambda t: t.where_clause.right.value),
+    ]
+    for tmpl, lits, get in pairs:
+        for order in (lits, list(reversed(lits)), lits):
+            for lit in order:
+                for text in (tmpl.format(lit), tmpl.format(lit).upper().replace(lit.upper(), lit), ' ' + tmpl.format(lit) + ' '):
+                    n += 1
+                    try:
+                        got = get(bp.parse(text))
+                        want = lit
+                        if got != want:
+                            bad.append((text, got, want))
+                    except Exception as e:  # noqa: BLE001
+                        bad.append((text, repr(e), lit))
+    return n, bad
+
+
 def run(tier, rng):
     violations = []
     quick = tier == 'quick'
+    nseq, seqbad = literal_case_sequences()
+    for text, got, want in seqbad[:2]:
+        violations.append(core.Violation('parse-not-a-function-of-text', f'parse({text!r}) after parsing case variants of the same text '
+                                         f'returned the literal {got!r} instead of {want!r}', {'text': text, 'got': got, 'want': want},
+                                         signature='literal-case:' + text))
     n_rand = 400 if quick else 25000
     nrender = 1 if quick else 2
     n_mut = 1200 if quick else 40000
